@@ -105,6 +105,7 @@ type e1 struct {
 	net  *Net
 
 	conn       *drpcconn.Conn
+	sharedMeta map[string]string // the application's long-lived metadata map (style 1)
 	cli        drpc.Conn // what client scripts call: the connection itself, or a pool conn (pooled family)
 	pooled     *pooledState
 	cep, sep   *Endpoint
@@ -429,7 +430,22 @@ func (x *e1) runClientRPC(r *rpcRec) {
 		cancel()
 	}
 	if spec.HasMeta {
-		ctx = drpcmetadata.AddPairs(ctx, spec.Meta)
+		switch spec.MetaStyle {
+		case 1:
+			if x.sharedMeta == nil {
+				x.sharedMeta = sharedMetaTemplate()
+			}
+			ctx = drpcmetadata.AddPairs(ctx, x.sharedMeta)
+			for _, k := range sortedKeys(spec.MetaExtras) {
+				ctx = drpcmetadata.Add(ctx, k, spec.MetaExtras[k])
+			}
+		case 2:
+			for _, k := range sortedKeys(spec.Meta) {
+				ctx = drpcmetadata.Add(ctx, k, spec.Meta[k])
+			}
+		default:
+			ctx = drpcmetadata.AddPairs(ctx, spec.Meta)
+		}
 	}
 	r.ctx = ctx
 	if spec.Cancel {
@@ -860,3 +876,4 @@ func (x *e1) checkCancelledCall(sd *sideRec, verb string, start int, err error) 
 		}
 	}
 }
+
